@@ -125,7 +125,7 @@ func runC04(c *Ctx) error {
 	fam.Distribution["apk-packages"] = seg.Packages
 	fam.Distribution["segments-compared"] = seg.Compared
 	fam.Distribution["segments-skipped-too-large"] = seg.Skipped
-	famT := c.Rep.Family("tar-byte-model", "byte-level model of the rpm cpio payload (Cpio.archive, reader Cpio.read_archive) vs every decompressed rpm payload, and byte-level model of archive/tar in its GNU and USTAR header flavours (Tar.archive: header fields, magic/version per flavour, leading-zero octal, NUL-filled strings, checksum, body padding, two zero blocks) vs every data, control and outer tar stream of every deb and ipk, the whole tar stream of every archlinux package and every gzip segment of every apk (cut segments completed with the end marker) built by the families above: the stream must equal the model's rendering of its own decoded members byte for byte, and the Lean reader proved correct for that model (Tar.read_archive) must recover the same members as the Go reader; members with PAX extension records are rendered through the model's extension-member writer (Tar.paxArchive) and read back by the proven reader (Tar.paxRead); streams holding a member outside the model (names over 100 bytes, mode values beyond the octal field, PAX records that replace a header field) or larger than 384 KiB are counted as skipped, by reason; non-trivial = stream compared")
+	famT := c.Rep.Family("tar-byte-model", "byte-level model of the rpm file (RpmHdr.file: lead, signature header padded to 8, header, payload; reader RpmHdr.readFile_file) vs every rpm, byte-level model of the rpm cpio payload (Cpio.archive, reader Cpio.read_archive) vs every decompressed rpm payload, and byte-level model of archive/tar in its GNU and USTAR header flavours (Tar.archive: header fields, magic/version per flavour, leading-zero octal, NUL-filled strings, checksum, body padding, two zero blocks) vs every data, control and outer tar stream of every deb and ipk, the whole tar stream of every archlinux package and every gzip segment of every apk (cut segments completed with the end marker) built by the families above: the stream must equal the model's rendering of its own decoded members byte for byte, and the Lean reader proved correct for that model (Tar.read_archive) must recover the same members as the Go reader; members with PAX extension records are rendered through the model's extension-member writer (Tar.paxArchive) and read back by the proven reader (Tar.paxRead); streams holding a member outside the model (names over 100 bytes, mode values beyond the octal field, PAX records that replace a header field) or larger than 384 KiB are counted as skipped, by reason; non-trivial = stream compared")
 	famT.Evaluations = seg.TarCompared + seg.TarSkipped
 	famT.Nontrivial = seg.TarCompared
 	famT.Distribution["tar-streams-compared"] = seg.TarCompared
